@@ -1,4 +1,4 @@
-CONSTANTS MaxDepth = 5 MaxHandles = 5 Emit = FALSE Msgs = {"m1", "m2"}
+CONSTANTS MaxDepth = 5 MaxHandles = 5 Emit = FALSE Msgs = {"m1"}
 SPECIFICATION MSpec
 VIEW MView
 CONSTRAINT Bound
